@@ -1,2 +1,75 @@
+"""C12 proof part: laziness L-sites (and, as a by-product, exception types / in-code asserts / plan preconditions)
+from the configuration-level execution of the real groupby_reduce by PyVC."""
+
+from __future__ import annotations
+
+import multiprocessing as mp
+
+from ..core import NCPU
+
+
+def _patch():
+    import vlib.pyvc.prims as P
+    from ..contracts import config
+
+    if not getattr(P.Prims, "_cfg_models", False):
+        orig = P.Prims.register_defaults
+
+        def reg(self):
+            orig(self)
+            config.config_models(self)
+
+        P.Prims.register_defaults = reg
+        P.Prims._cfg_models = True
+
+
+def _work(i):
+    _patch()
+    from ..contracts import config
+    from ..pyvc.run import run_contract
+
+    c = config.all_groupby_reduce()[i]
+    ex, obs = run_contract(c, callees=config.CONFIG_CALLEES)
+    for o in obs:
+        o.model = o.model if isinstance(o.model, (dict, type(None))) else None
+    return obs, sorted(ex.prims.used), list(c.assumed)
+
+
+def select(ctx, n):
+    from ..contracts import config
+
+    cs = config.all_groupby_reduce()
+    if not ctx.quick:
+        return list(range(len(cs)))
+    # quick: every value of every variant dimension at least once (a covering selection), deterministic
+    want = []
+    seen = set()
+    for i, c in enumerate(cs):
+        parts = c.prefix.split(".")[2:]
+        new = [p for p in parts if p not in seen]
+        if new:
+            want.append(i)
+            seen.update(parts)
+    # plus the dask-relevant corners
+    for i, c in enumerate(cs):
+        if any(k in c.prefix for k in ("n1.mstr.rNone.eNone.aNone.knofill", "n1.mstr.rNone.eall.aNone.kfill", "n2.mNone.rNone.eall.aNone.knofill", "n1.mNone.rTrue.eall.aNone.kfill", "n1.mstr.rFalse.eall.agiven.kfill", "n2.mstr.rNone.epartial.aNone.knofill")) and i not in want:
+            want.append(i)
+    return sorted(want)
+
+
 def run(ctx):
-    return ""
+    idx = select(ctx, 0)
+    with mp.get_context("forkserver").Pool(min(NCPU, len(idx))) as pool:
+        results = pool.map(_work, idx, chunksize=1)
+    n = 0
+    for obs, used, assumed in results:
+        ctx.add_obligations(obs)
+        n += len(obs)
+        for u in used:
+            ctx.trust(f"assumed contract: {u}")
+        for a in assumed:
+            ctx.trust(f"assumed contract: {a}")
+    ok = all(o.status == "discharged" for obs, _, _ in results for o in obs)
+    ctx.under_contract("flox.core.groupby_reduce (configuration level: laziness, exception types, asserts, plan preconditions)", "proved" if ok else "bounded")
+    ctx.assume("arrays abstracted to {is_dask, ndim, dtype kind}; evaluating uses of a chunked array are exactly the modelled forcing primitives (np.asarray, np.argsort, pd.unique/factorize inside callee contracts, eager kernels, find_group_cohorts, rechunk_for_blockwise, reindex_ on labels)")
+    return f"configuration-level PyVC of groupby_reduce: {len(idx)} parameter variants ({'covering subset' if ctx.quick else 'all'} of 180), {n} obligations (L-sites `lazy[...]`, in-code asserts, exception types, preconditions of dask_groupby_agg)."
